@@ -121,8 +121,10 @@ package plugin
 //@   at call cmdrunner.NewCmdRunner#1 assert !is_control(c.config.MagicCookieKey) && cmd0 != nil ==> (!c.config.GRPCBrokerMultiplex ==> same_eff(seq(cmd.Env), env0, "PLUGIN_MULTIPLEX_GRPC")) && (!c.config.AutoMTLS ==> same_eff(seq(cmd.Env), env0, "PLUGIN_CLIENT_CERT"))   [C17.host]
 //@   at call cmdrunner.NewCmdRunner#1 assert c.config.SkipHostEnv && cmd0 != nil ==> (forall k: Str :: eff_has(seq(cmd.Env), k) ==> eff_has(env0, k) || is_control(k) || k == c.config.MagicCookieKey)   [C17.skip]
 //@   local scanning: Bool := false
+//@   at call (runner.Runner).Start#1 bind tlsL: Ref := c.config.TLSConfig
+//@   ensures c.config.AutoMTLS && a0 == nil && c.config.Reattach == nil && err == nil ==> c.config.TLSConfig != nil && c.config.TLSConfig == tlsL   [C12.client] [C14.tls]
 //@   at go#3 set scanning := true
-//@   ensures scanning ==> drain_spawned == old(drain_spawned) + 1   [C10.drained] [C03.c] [C04.bounded]
+//@   ensures scanning ==> drain_spawned == old(drain_spawned) + 1   [C10.drained] [C03.c] [C04.bounded] [C05.d]
 //@   ensures !scanning ==> drain_spawned == old(drain_spawned)   [C10.drained]
 //@   at call strings.Join#1 assert forall v: Int :: (v in c.config.VersionedPlugins) <==> (old(v in c.config.VersionedPlugins) || (v == version && c.config.Plugins != nil))   [C02.offer]
 //@   at call strings.Join#1 assert forall v: Int :: old(v in c.config.VersionedPlugins) ==> c.config.VersionedPlugins[v] == old(c.config.VersionedPlugins[v])   [C02.offer]
@@ -165,7 +167,7 @@ package plugin
 //@   ensures a0 == nil && c.config.Reattach == nil && err == nil ==> exists j :: 0 <= j && j < len(c.config.AllowedProtocols) && c.config.AllowedProtocols[j] == proto_of(line)   [C01.b-proto] [C14.allowed]
 //@   ensures a0 == nil && c.config.Reattach == nil && err == nil ==> hs_cert_ok(c, line)   [C01.b-cert]
 //@   ensures a0 == nil && c.config.Reattach == nil && err == nil ==> hs_mux_ok(c, line)   [C01.b-mux]
-//@   ensures a0 == nil && c.config.Reattach == nil && err == nil ==> c.protocol == proto_of(line) && c.negotiatedVersion == atoi_val(P(line, 1)) && c.config.Plugins == c.config.VersionedPlugins[atoi_val(P(line, 1))]   [C01.c]
+//@   ensures a0 == nil && c.config.Reattach == nil && err == nil ==> c.protocol == proto_of(line) && c.negotiatedVersion == atoi_val(P(line, 1)) && c.config.Plugins == c.config.VersionedPlugins[atoi_val(P(line, 1))]   [C01.c] [C02.client]
 //@   ensures a0 == nil && c.config.Reattach == nil && err == nil && hn(the_runner, line) == "tcp" ==> addr == iface(cast(tcp_addr(ha(the_runner, line)), "*net.TCPAddr"))   [C01.c]
 //@   ensures a0 == nil && c.config.Reattach == nil && err == nil && hn(the_runner, line) == "unix" ==> addr == iface(cast(unix_addr(ha(the_runner, line)), "*net.UnixAddr"))   [C01.c]
 //@   ensures sel_reached && (sel == 0 || sel == 1 || !lineok) ==> err != nil   [C03.b]
@@ -328,6 +330,7 @@ package plugin
 //@   at call (*sync.Mutex).Unlock#1 bind ak: Iface := c.address
 //@   at call (*sync.Mutex).Unlock#1 bind d0: Str := c.unixSocketCfg.socketDir
 //@   after select#2 set grace := index == 0
+//@   at call (runner.AttachedRunner).Kill#1 assert arg0 == ctx_background   [C04.force] [C05.kill]
 //@   ensures !held(c.l)   [C19.lock]
 //@   ensures launches == old(launches) && rf_calls == old(rf_calls)   [C19.kill]
 //@   ensures r0 == nil || runner_id(r0) == "" ==> kills == old(kills) && removed == old(removed) && waited == old(waited) && launches == old(launches)   [C04.noop]
@@ -518,6 +521,10 @@ package plugin
 //@   ensures cancelled[ctx_cancel(c.ctxCancel)]   [C03.a] [C15.watch]
 //@   ensures wg_count[c.clientWaitGroup] == old(wg_count)[c.clientWaitGroup] - 1   [C03.a]
 //@   ensures !held(c.l)   [C03.a]
+
+//@ func (*Client).Start$1
+//@   inline
+//@   at call (runner.Runner).Kill#1 assert arg0 == ctx_background   [C05.kill]
 
 //@ ghost drain_spawned: Int
 
@@ -912,6 +919,10 @@ package plugin
 //@   loop#1 invariant !held(b.Mutex) && mux_registered[id]
 //@   at call (grpcmux.GRPCMuxer).AcceptKnock#1 assert arg0 == id   [C08.listen]
 //@   at call (streamer).Send#1 assert arg0 != nil && arg0.ServiceId == id && arg0.Knock != nil && arg0.Knock.Knock && arg0.Knock.Ack   [C08.listen]
+//@   local knock_taken: Bool := false
+//@   after select#1 set knock_taken := false
+//@   after call (grpcmux.GRPCMuxer).AcceptKnock#1 set knock_taken := true
+//@   at call (streamer).Send#1 assert knock_taken   [C08.listen]
 
 //@ func (*GRPCBroker).knock
 //@   dead return#2 defensive check: a message parked under id carries ServiceId id (channel invariant)
@@ -944,6 +955,7 @@ package plugin
 //@   at call grpc.WithInsecure#1 assert tls == nil   [C12.wrap]
 //@   at call credentials.NewTLS#1 assert arg0 == tls && tls != nil   [C12.wrap]
 //@   at call grpc.WithDialer#1 assert arg0 == dialer   [C07.dial]
+//@   at call append#5 assert len(arg1) == 2 && arg1[0] == dialopt_call(callopt_recv(2147483647)) && arg1[1] == dialopt_call(callopt_send(2147483647))   [C14.size]
 
 //@ func netAddrDialer
 //@   nopanic [C07.total]
@@ -1216,6 +1228,8 @@ package plugin
 //@   at call (ServerProtocol).Init#1 assert opts.TLSProvider == nil && getenv("PLUGIN_CLIENT_CERT") != "" ==> tlsConfig != nil && tlsConfig == tc && tc.ClientAuth == 4 && tc.ClientCAs == pool && pool_pem(pool) == getenv("PLUGIN_CLIENT_CERT") && tc.MinVersion >= 771   [C12.server]
 //@   at call (ServerProtocol).Init#1 assert opts.TLSProvider == nil && getenv("PLUGIN_CLIENT_CERT") == "" ==> tlsConfig == nil   [C12.server]
 //@   at call (ServerProtocol).Serve#1 assert arg0 == listener && recv == server   [C12.wrap]
+//@   at call (ServerProtocol).Init#1 assert pt == "netrpc" ==> unbox(server, "*RPCServer").Plugins == pset   [C02.serve]
+//@   at call (ServerProtocol).Init#1 assert pt == "grpc" ==> unbox(server, "*GRPCServer").Plugins == pset && unbox(server, "*GRPCServer").Server == opts.GRPCServer   [C02.serve]
 //@   at call (ServerProtocol).Serve#1 assert opts.Test == nil && pt == "grpc" ==> unbox(server, "*GRPCServer").Stdout == iface(cast(pipe_reader(pkg("os").Stdout), "*os.File")) && unbox(server, "*GRPCServer").Stderr == iface(cast(pipe_reader(pkg("os").Stderr), "*os.File"))   [C11.pipe]
 //@   at call (ServerProtocol).Serve#1 assert opts.Test == nil && pt == "netrpc" ==> unbox(server, "*RPCServer").Stdout == iface(cast(pipe_reader(pkg("os").Stdout), "*os.File")) && unbox(server, "*RPCServer").Stderr == iface(cast(pipe_reader(pkg("os").Stderr), "*os.File"))   [C11.pipe]
 //@   at send#1 assert opts.Test != nil && value != nil && value.Test && value.Protocol == cast(pt, "Protocol") && value.ProtocolVersion == pv && value.Addr == lis_addr(listener)   [C15.serve]
